@@ -432,3 +432,136 @@ Example C06_deferred_rename_is_not_retested :
     ([cr_out], NDir); ([cr_out; n_b], NFile 3)]) /\
   is_prefix_path [n_in] [cr_out; n_b] = false /\ is_prefix_path [n_in] [cr_out; n_a] = false.
 Proof. exact swap_run. Qed.
+
+(* ---------- every conflict strategy: override, and the manual prompt with "override" and "custom path" ---------------- *)
+From Tempren Require Import Pipe.ConfinedOverride.
+
+(* C06_run_confined without [no_override]: Stop, Ignore, Override, Manual with any answers; every mode, dry or real, any
+   fault.  With override rename(2) REPLACES the destination: the entry there is removed, the source entry is re-keyed to
+   it -- both keys at or below an input directory.  Name and directory mode need nothing more (the renamer insists on
+   the source's parent, also for a custom path typed at the prompt).  Path mode needs two things, and only in the
+   situations named:
+   - when the configuration can override ([overriding c]: --conflict-strategy override, or manual with an "override"
+     answer): every symbolic link of the initial tree lies at or below an input directory.  Path.resolve() in the
+     containment test follows a link in the last component, rename(2) replaces the link itself
+     ([C06_override_link_destination_escapes]);
+   - at the manual prompt no "custom path" answer: a path typed there reaches the mover untested
+     ([C06_custom_path_escapes_refuted]). *)
+Theorem C06_run_confined_any_strategy : forall c plan cwd s,
+  c_var c = fixed -> WF s ->
+  (c_mode c = MPath -> overriding c ->
+   forall k i t, In (k, NLink i t) s -> exists f r, In (f, r) plan /\ is_prefix_path (pf_dir f) k = true) ->
+  (c_mode c = MPath -> c_strategy c = Manual -> Forall (fun a => parse_answer a <> ACustom) (c_answers c)) ->
+  (forall f r, In (f, r) plan -> chdir s (pf_dir f) = Some (pf_dir f)) ->
+  (forall f r f' r', In (f, r) plan -> In (f', r') plan ->
+     is_prefix_path (pf_dir f) (pf_dir f') = true -> pf_dir f = pf_dir f') ->
+  Forall (same_links s) (r_states (run c plan cwd s)) ->
+  forall k n,
+    (In (k, n) (r_final (run c plan cwd s)) /\ ~ In (k, n) s) \/ (In (k, n) s /\ ~ In (k, n) (r_final (run c plan cwd s))) ->
+    exists f r, In (f, r) plan /\ is_prefix_path (pf_dir f) k = true.
+Proof. exact run_confined_any_strategy. Qed.
+Print Assumptions C06_run_confined_any_strategy.
+
+(* ... and the same for every intermediate state *)
+Theorem C06_every_state_confined_any_strategy : forall c plan cwd s,
+  c_var c = fixed -> WF s ->
+  (c_mode c = MPath -> overriding c ->
+   forall k i t, In (k, NLink i t) s -> exists f r, In (f, r) plan /\ is_prefix_path (pf_dir f) k = true) ->
+  (c_mode c = MPath -> c_strategy c = Manual -> Forall (fun a => parse_answer a <> ACustom) (c_answers c)) ->
+  (forall f r, In (f, r) plan -> chdir s (pf_dir f) = Some (pf_dir f)) ->
+  (forall f r f' r', In (f, r) plan -> In (f', r') plan ->
+     is_prefix_path (pf_dir f) (pf_dir f') = true -> pf_dir f = pf_dir f') ->
+  Forall (same_links s) (r_states (run c plan cwd s)) ->
+  forall h, In h (r_states (run c plan cwd s)) -> forall k n,
+    (In (k, n) h /\ ~ In (k, n) s) \/ (In (k, n) s /\ ~ In (k, n) h) ->
+    exists f r, In (f, r) plan /\ is_prefix_path (pf_dir f) k = true.
+Proof. exact every_state_confined_any_strategy. Qed.
+Print Assumptions C06_every_state_confined_any_strategy.
+
+(* a condition on the initial tree and the plan alone ([plan_static]: no symbolic link at or below an input directory;
+   with the hypothesis for path mode with override this leaves no symbolic link at all there) *)
+Theorem C06_run_confined_static_any_strategy : forall c plan cwd s,
+  c_var c = fixed -> WF s -> plan_static plan s ->
+  (c_mode c = MPath -> overriding c ->
+   forall k i t, In (k, NLink i t) s -> exists f r, In (f, r) plan /\ is_prefix_path (pf_dir f) k = true) ->
+  (c_mode c = MPath -> c_strategy c = Manual -> Forall (fun a => parse_answer a <> ACustom) (c_answers c)) ->
+  forall h, In h (r_final (run c plan cwd s) :: r_states (run c plan cwd s)) -> forall k n,
+    (In (k, n) h /\ ~ In (k, n) s) \/ (In (k, n) s /\ ~ In (k, n) h) ->
+    exists f r, In (f, r) plan /\ is_prefix_path (pf_dir f) k = true.
+Proof. exact run_confined_static_any_strategy. Qed.
+Print Assumptions C06_run_confined_static_any_strategy.
+
+(* the states form a chain of steps: a new directory, a re-keying, a rename of an entry onto itself, or a replacing
+   rename (removal of the entry at the destination key combined with the re-keying) *)
+Theorem C06_run_is_chain_any_strategy : forall c plan cwd s,
+  c_var c = fixed -> WF s -> plan_static plan s -> links_inside c plan s -> no_custom_in_path_mode c ->
+  exists l, r_states (run c plan cwd s) = rev l /\ r_final (run c plan cwd s) = hd s l /\ chain2 (plan_dirs plan) s l.
+Proof. exact run_is_chain_any_strategy. Qed.
+Print Assumptions C06_run_is_chain_any_strategy.
+
+(* every state of every run is a well-formed tree: any strategy, mode, answers, fault (rename(2) keeps the tree
+   well-formed in each of its branches, replacing included) *)
+Theorem C06_every_state_well_formed : forall c plan cwd s,
+  WF s -> Forall WF (s :: r_states (run c plan cwd s)) /\ WF (r_final (run c plan cwd s)).
+Proof. exact run_WF. Qed.
+Print Assumptions C06_every_state_well_formed.
+
+(* the hypotheses added are vacuous for the runs of C06_run_confined *)
+Theorem C06_no_override_is_special_case : forall c,
+  no_override c -> ~ overriding c /\ no_custom_in_path_mode c.
+Proof. intros c NO. split; [exact (no_override_not_overriding c NO) | exact (no_override_no_custom c NO)]. Qed.
+Print Assumptions C06_no_override_is_special_case.
+
+(* non-vacuity under override: a -> b with b occupied by a file that is not selected; the second pass replaces it *)
+Example C06_override_run_example :
+  WF cr_fs /\ plan_static co_plan cr_fs /\ overriding (co_cfg MName Override []) /\
+  (let r := run (co_cfg MName Override []) co_plan [] cr_fs in (r_status r, r_final r, r_calls r)) =
+  (0%Z,
+   [([n_in], NDir); ([n_in; n_b], NFile 1); ([cr_out], NDir);
+    ([cr_out; cr_l], NLink 3 {| up_abs := true; up_comps := [n_in] |})],
+   [(CRename, COk)]).
+Proof. exact override_run_applies. Qed.
+
+(* ... the same in path mode (no symbolic link in the tree) *)
+Example C06_override_path_mode_example :
+  WF po_fs /\ plan_static co_plan po_fs /\ links_inside (co_cfg MPath Override []) co_plan po_fs /\
+  no_custom_in_path_mode (co_cfg MPath Override []) /\
+  (let r := run (co_cfg MPath Override []) co_plan [] po_fs in (r_status r, r_final r, r_calls r)) =
+  (0%Z, [([n_in], NDir); ([n_in; n_b], NFile 1); ([cr_out], NDir)], [(CMkdir, CErr); (CMove, COk)]).
+Proof. exact override_path_mode_applies. Qed.
+
+(* a custom path in name mode: a sibling name is used, a path into another directory is refused by the renamer *)
+Example C06_custom_path_name_mode_example :
+  (let r := run (co_cfg MName Manual [w_custom; co_c]) co_plan [] cr_fs in (r_status r, r_final r, r_calls r)) =
+  (0%Z,
+   [([n_in], NDir); ([n_in; co_c], NFile 1); ([n_in; n_b], NFile 2); ([cr_out], NDir);
+    ([cr_out; cr_l], NLink 3 {| up_abs := true; up_comps := [n_in] |})],
+   [(CRename, COk)]) /\
+  (let r := run (co_cfg MName Manual [w_custom; co_up_x]) co_plan [] cr_fs in (r_status r, r_final r, r_calls r)) =
+  (1%Z, cr_fs, []).
+Proof. exact custom_path_name_mode. Qed.
+
+(* "no custom path in path mode" cannot be dropped: "../x" typed at the prompt creates /x, status 0 *)
+Example C06_custom_path_escapes_refuted :
+  WF cr_fs /\ plan_static co_plan cr_fs /\ ~ overriding (co_cfg MPath Manual [w_custom; co_up_x]) /\
+  (let r := run (co_cfg MPath Manual [w_custom; co_up_x]) co_plan [] cr_fs in (r_status r, r_final r, r_calls r, r_prompts r)) =
+  (0%Z,
+   [([n_in], NDir); ([[120]], NFile 1); ([n_in; n_b], NFile 2); ([cr_out], NDir);
+    ([cr_out; cr_l], NLink 3 {| up_abs := true; up_comps := [n_in] |})],
+   [(CMkdir, CErr); (CMove, COk)], 2%nat) /\
+  ~ In ([[120]], NFile 1) cr_fs /\ is_prefix_path [n_in] [[120]] = false.
+Proof. exact custom_path_escapes_refuted. Qed.
+
+(* "every symbolic link at or below an input directory" cannot be dropped in path mode with override: the generated
+   path "../out/l" names a link outside /in that points into /in; the containment test (Path.resolve()) accepts it,
+   override replaces the link /out/l by the file, status 0 *)
+Example C06_override_link_destination_escapes :
+  WF lk_fs /\ plan_static lk_plan lk_fs /\
+  contained fixed lk_fs (cr_file [n_a]) (parse_path lk_dst) = Some true /\
+  (let r := run (co_cfg MPath Override []) lk_plan [] lk_fs in (r_status r, r_final r, r_calls r)) =
+  (0%Z,
+   [([n_in], NDir); ([cr_out; cr_l], NFile 1); ([cr_out], NDir)],
+   [(CMkdir, CErr); (CMove, COk)]) /\
+  is_prefix_path [n_in] [cr_out; cr_l] = false /\
+  (let r := run (co_cfg MPath Stop []) lk_plan [] lk_fs in (r_status r, r_final r, r_calls r)) = (1%Z, lk_fs, []).
+Proof. exact override_link_destination_escapes. Qed.
